@@ -16,6 +16,7 @@ import Knut.Driver.C20
 import Knut.Driver.C13
 import Knut.Driver.C14
 import Knut.Driver.GoSem
+import Knut.Driver.C09Cmd
 /-! Line-protocol driver over the executable model: one request per line (`op field*`), one answer line.
 Each property contributes a handler module `Knut/Driver/<X>.lean`; add it to `handlers`. -/
 open Knut Knut.Wire
@@ -38,7 +39,8 @@ def handlers : List (List String → Option String) := [
   Knut.Driver.C04.handle,
   Knut.Driver.Balance.handle,
   Knut.Driver.Load.handle,
-  Knut.Driver.GoSem.handle
+  Knut.Driver.GoSem.handle,
+  Knut.Driver.C09Cmd.handle
 ]
 
 def handle (fields : List String) : String :=
